@@ -208,9 +208,18 @@ func (w *World) forkAtWait(c *ContactState, rec *SessionRec, live flows.Session,
 
 	// --- B. asset faults between sprints x resume types
 	wf, pf, nodeUUID := waitingLocation(rec.JSON)
+	parentNode := parentLocation(rec.JSON)
+	// which resume types return a Go error even with unchanged assets (unrelated to asset faults)
+	goErrUnchanged := map[string]bool{}
+	for _, f := range firsts {
+		if f.fo.err != nil && !f.fo.rejected {
+			goErrUnchanged[f.typ] = true
+		}
+	}
 	type variant struct {
 		name       string
 		impossible bool
+		noGoError  bool // the fault may or may not matter to this resume, but it must never surface as a Go error
 		mutate     func(doc gen.J, fl []*storedFlow) []*storedFlow
 		transient  int
 	}
@@ -302,7 +311,30 @@ func (w *World) forkAtWait(c *ContactState, rec *SessionRec, live flows.Session,
 		{name: "transient_source_error", mutate: func(doc gen.J, fl []*storedFlow) []*storedFlow { return fl }, transient: 1},
 	}
 	if pf != "" && pf != wf {
-		variants = append(variants, variant{name: "parent_flow_deleted", mutate: del(pf)})
+		variants = append(variants, variant{name: "parent_flow_deleted", noGoError: true, mutate: del(pf)})
+	}
+	if pf != "" && parentNode != "" {
+		variants = append(variants, variant{name: "parent_node_removed", noGoError: true, mutate: editFlow(pf, func(def gen.J) {
+			nodes, _ := def["nodes"].([]any)
+			var keep []any
+			for _, n := range nodes {
+				if n.(gen.J)["uuid"] != parentNode {
+					keep = append(keep, n)
+				}
+			}
+			for _, n := range keep {
+				exits, _ := n.(gen.J)["exits"].([]any)
+				for _, ex := range exits {
+					if ex.(gen.J)["destination_uuid"] == parentNode {
+						delete(ex.(gen.J), "destination_uuid")
+					}
+				}
+			}
+			if keep == nil {
+				keep = []any{}
+			}
+			def["nodes"] = keep
+		})})
 	}
 	for _, vr := range variants {
 		if w.stopped {
@@ -342,6 +374,10 @@ func (w *World) forkAtWait(c *ContactState, rec *SessionRec, live flows.Session,
 			}
 			if fo.o.Panic != "" {
 				v("no-panic", "panic/"+vr.name+"/"+typ+"/"+panicSite(fo.o.Panic), fmt.Sprintf("resume %s after asset fault %s panics: %s", typ, vr.name, clip(fo.o.Panic, 2000)))
+				return
+			}
+			if vr.noGoError && fo.err != nil && !fo.rejected && !goErrUnchanged[typ] {
+				v("impossible-fails-session", fmt.Sprintf("go-error/%s/%s", vr.name, typ), fmt.Sprintf("resume %s after asset fault %s returned the Go error %q (the same resume with unchanged assets returns none): a vanished flow or node must end the session as failed, never surface as a Go error", typ, vr.name, fo.err))
 				return
 			}
 			if !vr.impossible {
@@ -448,6 +484,31 @@ func (w *World) forkEnded(c *ContactState, rec *SessionRec, sa *SA) {
 		}
 		w.probe("c10_ended_session_checked")
 	}
+}
+
+// parentLocation returns the node on which the waiting run's parent is paused ("" if none).
+func parentLocation(sessionJSON []byte) string {
+	var s struct {
+		Runs []struct {
+			UUID       string `json:"uuid"`
+			Status     string `json:"status"`
+			ParentUUID string `json:"parent_uuid"`
+			Path       []struct {
+				NodeUUID string `json:"node_uuid"`
+			} `json:"path"`
+		} `json:"runs"`
+	}
+	json.Unmarshal(sessionJSON, &s)
+	for _, r := range s.Runs {
+		if r.Status == "waiting" && r.ParentUUID != "" {
+			for _, p := range s.Runs {
+				if p.UUID == r.ParentUUID && len(p.Path) > 0 {
+					return p.Path[len(p.Path)-1].NodeUUID
+				}
+			}
+		}
+	}
+	return ""
 }
 
 // waitingLocation extracts, from the persisted JSON alone, the flow of the waiting run,
